@@ -159,7 +159,7 @@ func (c *Conn) do(op, q string, args []any) *Entry {
 		return e
 	}
 	e.Stmt = st
-	if (op == "query") != (st.Verb == VSelectVer || st.Verb == VSelectSet || st.Verb == VShowTables || st.Verb == VSelectCount) {
+	if (op == "query") != (st.Verb == VSelectVer || st.Verb == VSelectSet || st.Verb == VShowTables || st.Verb == VSelectCount || st.Verb == VSelectVerAll) {
 		c.Unmodelled = append(c.Unmodelled, op+" of "+st.Verb)
 		e.Err = &Unmodelled{op + " of " + st.Verb}
 		return e
@@ -224,6 +224,19 @@ func (c *Conn) answer(s *Stmt) ([]any, error) {
 			return nil, e
 		}
 		return []any{v}, nil
+	case VSelectVerAll:
+		pairs, e := c.Cat.VerAll(c.Cat.qual(s.Name, c.DB))
+		if e != nil {
+			if e.Code < 0 {
+				return nil, &Unmodelled{e.Message}
+			}
+			return nil, e
+		}
+		out := make([]any, len(pairs))
+		for i, p := range pairs {
+			out[i] = p
+		}
+		return out, nil
 	case VSelectSet:
 		v, found, e := c.Cat.Setting(c.Cat.qual(s.Name, c.DB), s.Arg)
 		if e != nil {
@@ -308,6 +321,19 @@ func (r *rows) Next() bool { r.i++; return r.i <= len(r.vals) }
 func (r *rows) Scan(dest ...any) error {
 	if r.i < 1 || r.i > len(r.vals) {
 		return errors.New("sql: Scan called without calling Next")
+	}
+	if tup, ok := r.vals[r.i-1].([2]uint64); ok { // (k, max ver) rows
+		if len(dest) != 2 {
+			return fmt.Errorf("expected 2 destination arguments in Scan, not %d", len(dest))
+		}
+		for j, d := range dest {
+			p, ok := d.(*uint64)
+			if !ok {
+				return fmt.Errorf("converting UInt64 to %s is unsupported", reflect.TypeOf(d))
+			}
+			*p = tup[j]
+		}
+		return nil
 	}
 	if len(dest) != 1 {
 		return fmt.Errorf("expected 1 destination arguments in Scan, not %d", len(dest))
